@@ -456,9 +456,14 @@ func (d *Driver) nextRaw() Event {
 					e.Creator = d.pick([]string{"a05", "a06", "a11", "a12"})
 				}
 			}
-			if d.R.Intn(4) == 0 {
+			switch d.R.Intn(4) {
+			case 0:
 				others := d.ownerDids()
 				e.Rw = []string{d.pick(others)}
+			case 1:
+				// readers named at creation: they may read, and nothing else
+				others := d.ownerDids()
+				e.Ro = []string{d.pick(others)}
 			}
 			return e
 		case "StoreUpdate":
